@@ -1,16 +1,14 @@
 (* C17 property theorems about the regenerated site table: statements + `exact lemma` only. *)
 From CJ Require Import Common.Base C17.Model C17.Sites C17.Proofs C17.SitesProofs.
 
-(* the full statement over the table regenerated from the source on this run *)
-Definition C17_all_sites_safe_full_statement : Prop := forallb safe_site sites = true.
-
-(* proved part: every site except those recorded as open known findings *)
-Theorem C17_all_sites_safe_partial : forallb (fun s => s_known s || safe_site s) sites = true.
-Proof. exact all_sites_safe_but_known. Qed.
-Print Assumptions C17_all_sites_safe_partial.
+(* all_sites_safe, the full statement, over the table regenerated from the source on this run
+   (every package of the conjure module that the station binary links) *)
+Theorem C17_all_sites_safe : forallb safe_site sites = true.
+Proof. exact all_sites_safe. Qed.
+Print Assumptions C17_all_sites_safe.
 
 Theorem C17_no_site_leaks :
-  forall s ev, In s sites -> s_known s = false -> log_client_ip ev = false ->
+  forall s ev, In s sites -> log_client_ip ev = false ->
     has_addr (output default_level s ev) = false.
 Proof. exact no_site_leaks. Qed.
 Print Assumptions C17_no_site_leaks.
